@@ -424,3 +424,170 @@ theorem ewise_run {inps : List (Tensor Cell)} {s s' : St} {regs : List (Tensor C
   simp only [symAlg] at e2
   rw [e2, this]
   rfl
+
+/-! ### the alignment loops -/
+
+/-- The cell of input `i` with expression `e` under a valuation. -/
+def cOf (i : Nat) (e : List G) : (String → Nat) → Cell :=
+  fun val => .src i (ravel (lens (G.leavesL e)) (idx (G.leavesL e) val))
+
+/-- What the chains need to know about the inputs `es` (input `i + k` is `es[k]`). -/
+structure InsOK (W : List Ax) (P : (String → Nat) → Prop) (es : List (List G)) : Prop where
+  bnd : ∀ e ∈ es, ∀ val, P val → Bnd val (G.leavesL e)
+  cons : ∀ e ∈ es, ∀ a ∈ G.leavesL e, ∀ b ∈ W, a.name = b.name → a.len = b.len
+
+theorem InsOK.tail {W : List Ax} {P : (String → Nat) → Prop} {e : List G} {es : List (List G)} (h : InsOK W P (e :: es)) :
+    InsOK W P es :=
+  ⟨fun x hx => h.bnd x (List.mem_cons_of_mem _ hx), fun x hx => h.cons x (List.mem_cons_of_mem _ hx)⟩
+
+theorem presentPre_mask (W sq : List Ax) : Mask W (presentPre sq) := by
+  intro a _
+  simp only [presentPre]
+  by_cases h : (names sq).contains a.name = true
+  · left; rw [if_pos h]
+  · right; rw [if_neg h]
+
+theorem alignAll_run {inps : List (Tensor Cell)} {W : List Ax} {P : (String → Nat) → Prop}
+    (hW : (names W).Nodup) (hPW : ∀ val, P val → Bnd val W) :
+    ∀ (es : List (List G)) (i : Nat) (s s' : St) (regs : List (Tensor Cell)) (xs : List (List Ax)) (os' : List Opnd),
+    Tr inps s regs → (∀ k e, es[k]? = some e → regs[i + k]? = some (symInput (i + k) (gShape e))) →
+    InsOK W P es → alignAll W i s es = .ok (xs, os', s') →
+    (∀ e ∈ es, (names (G.leavesL e)).Nodup ∧ ∀ n ∈ names (squeezedExpr [] e), n ∈ names W) ∧
+    xs = (es.zipIdx i).map (fun x => unitaryExpr x.2 (squeezedExpr [] x.1) W) ∧
+    ∃ (ext : List (Tensor Cell)) (ods : List Od), Tr inps s' (regs ++ ext) ∧
+      os'.map (·.reg) = ods.map (·.reg) ∧ os'.map (·.shape) = ods.map (fun d => W.map d.pre) ∧
+      ods.map (·.pre) = es.map (fun e => presentPre (squeezedExpr [] e)) ∧
+      ods.map (·.c) = (es.zipIdx i).map (fun x => cOf x.2 x.1) ∧
+      ∀ d ∈ ods, ∃ T, (regs ++ ext)[d.reg]? = some T ∧ ReadsP P d.c T W d.pre
+  | [], i, s, s', regs, xs, os', h, _, _, ha => by
+    simp only [alignAll, pure, Except.pure, Except.ok.injEq, Prod.mk.injEq] at ha
+    obtain ⟨rfl, rfl, rfl⟩ := ha
+    exact ⟨by simp, rfl, [], [], by simpa using h, rfl, rfl, rfl, rfl, by simp⟩
+  | e :: es, i, s, s', regs, xs, os', h, hin, hok, ha => by
+    unfold alignAll at ha
+    cases hc : chainInput W s i e with
+    | error er => simp [hc, bind, Except.bind] at ha
+    | ok x =>
+      obtain ⟨e1, s1⟩ := x
+      simp only [hc, bind, Except.bind] at ha
+      cases hr : alignAll W (i + 1) s1 es with
+      | error er => simp [hr] at ha
+      | ok y =>
+        obtain ⟨xs', os'', s2⟩ := y
+        simp only [hr, pure, Except.pure, Except.ok.injEq, Prod.mk.injEq] at ha
+        obtain ⟨rfl, rfl, rfl⟩ := ha
+        have hi0 : regs[i]? = some (symInput i (gShape e)) := by simpa using hin 0 e rfl
+        obtain ⟨hnd, hsub, he1, ext1, T1, hrun1, hR1⟩ := chain_run h hi0 hW (hok.bnd e (List.mem_cons_self ..)) hPW
+          (hok.cons e (List.mem_cons_self ..)) hc
+        have hin' : ∀ k e', es[k]? = some e' → (regs ++ ext1)[i + 1 + k]? = some (symInput (i + 1 + k) (gShape e')) := by
+          intro k e' hk
+          have := hin (k + 1) e' (by simpa using hk)
+          have e3 : i + (k + 1) = i + 1 + k := by omega
+          rw [e3] at this
+          exact getElem?_append_of_some this ext1
+        obtain ⟨hall, hxs, ext2, ods, htr, hreg, hshape, hpre, hcs, hread⟩ :=
+          alignAll_run hW hPW es (i + 1) s1 s2 (regs ++ ext1) xs' os'' hrun1.tr hin' hok.tail hr
+        refine ⟨?_, ?_, ext1 ++ ext2, ⟨s1.reg, presentPre (squeezedExpr [] e), cOf i e⟩ :: ods, ?_, ?_, ?_, ?_, ?_, ?_⟩
+        · intro x hx
+          rcases List.mem_cons.mp hx with rfl | hx'
+          · exact ⟨hnd, hsub⟩
+          · exact hall x hx'
+        · simp only [List.zipIdx_cons, List.map_cons, he1, hxs]
+        · rw [← List.append_assoc]; exact htr
+        · simp only [List.map_cons, hreg]
+        · simp only [List.map_cons, hshape, ← hrun1.shape, hR1.1]
+        · simp only [List.map_cons, hpre]
+        · simp only [List.zipIdx_cons, List.map_cons, hcs]
+        · intro d hd
+          rcases List.mem_cons.mp hd with rfl | hd'
+          · refine ⟨T1, ?_, hR1⟩
+            rw [← List.append_assoc]
+            exact getElem?_append_of_some hrun1.reg ext2
+          · obtain ⟨T, hT, hR⟩ := hread d hd'
+            exact ⟨T, by rw [← List.append_assoc]; exact hT, hR⟩
+
+theorem alignFold_run {inps : List (Tensor Cell)} {W : List Ax} {P : (String → Nat) → Prop} {f : String}
+    (hW : (names W).Nodup) (hPW : ∀ val, P val → Bnd val W) :
+    ∀ (es : List (List G)) (i : Nat) (s s' : St) (regs : List (Tensor Cell)) (xs : List (List Ax)) (Tacc : Tensor Cell)
+      (preA : Ax → Nat) (cA : (String → Nat) → Cell),
+    Run inps s regs Tacc → ReadsP P cA Tacc W preA → Mask W preA →
+    (∀ k e, es[k]? = some e → regs[i + k]? = some (symInput (i + k) (gShape e))) →
+    InsOK W P es → alignFold f W i s es = .ok (xs, s') →
+    (∀ e ∈ es, (names (G.leavesL e)).Nodup ∧ ∀ n ∈ names (squeezedExpr [] e), n ∈ names W) ∧
+    xs = (es.zipIdx i).map (fun x => unitaryExpr x.2 (squeezedExpr [] x.1) W) ∧
+    ∃ (ext : List (Tensor Cell)) (T' : Tensor Cell) (preF : Ax → Nat), Run inps s' (regs ++ ext) T' ∧
+      ReadsP P (fun val => ((es.zipIdx i).map (fun x => cOf x.2 x.1 val)).foldl (fun a d => .app f [a, d]) (cA val)) T' W preF ∧
+      Mask W preF ∧ (∀ a, preA a ≠ 1 → preF a ≠ 1) ∧
+      (∀ e ∈ es, ∀ a, presentPre (squeezedExpr [] e) a ≠ 1 → preF a ≠ 1)
+  | [], i, s, s', regs, xs, Tacc, preA, cA, h, hR, hm, _, _, ha => by
+    simp only [alignFold, pure, Except.pure, Except.ok.injEq, Prod.mk.injEq] at ha
+    obtain ⟨rfl, rfl⟩ := ha
+    exact ⟨by simp, rfl, [], Tacc, preA, by simpa using h, by simpa using hR, hm, fun _ h => h, by simp⟩
+  | e :: es, i, s, s', regs, xs, Tacc, preA, cA, h, hR, hm, hin, hok, ha => by
+    unfold alignFold at ha
+    cases hc : chainInput W s i e with
+    | error er => simp [hc, bind, Except.bind] at ha
+    | ok x =>
+      obtain ⟨e1, s1⟩ := x
+      simp only [hc, bind, Except.bind] at ha
+      cases hcall : ewiseCall f s1 [⟨[], s.reg, s.shape⟩, ⟨e1, s1.reg, s1.shape⟩] with
+      | error er => simp [hcall] at ha
+      | ok s2 =>
+        simp only [hcall] at ha
+        cases hr : alignFold f W (i + 1) s2 es with
+        | error er => simp [hr] at ha
+        | ok y =>
+          obtain ⟨xs', s3⟩ := y
+          simp only [hr, pure, Except.pure, Except.ok.injEq, Prod.mk.injEq] at ha
+          obtain ⟨rfl, rfl⟩ := ha
+          have hi0 : regs[i]? = some (symInput i (gShape e)) := by simpa using hin 0 e rfl
+          obtain ⟨hnd, hsub, he1, ext1, T1, hrun1, hR1⟩ := chain_run h.tr hi0 hW (hok.bnd e (List.mem_cons_self ..)) hPW
+            (hok.cons e (List.mem_cons_self ..)) hc
+          -- the binary call
+          obtain ⟨T2, hrun2, hR2⟩ := ewise_run (W := W) (P := P) (f := f)
+            [⟨s.reg, preA, cA⟩, ⟨s1.reg, presentPre (squeezedExpr [] e), cOf i e⟩] (by simp) hrun1.tr
+            (by
+              intro d hd
+              simp only [List.mem_cons, List.not_mem_nil, or_false] at hd
+              rcases hd with rfl | rfl
+              · exact ⟨Tacc, getElem?_append_of_some h.reg ext1, hR⟩
+              · exact ⟨T1, hrun1.reg, hR1⟩)
+            (by
+              intro d hd
+              simp only [List.mem_cons, List.not_mem_nil, or_false] at hd
+              rcases hd with rfl | rfl
+              · exact hm
+              · exact presentPre_mask W _)
+            hPW _ rfl (by simp only [List.map_cons, List.map_nil, ← h.shape, hR.1, ← hrun1.shape, hR1.1]) hcall
+          have hm2 : Mask W (joinAll [preA, presentPre (squeezedExpr [] e)]) := joinAll_mask (by
+            intro p hp
+            simp only [List.mem_cons, List.not_mem_nil, or_false] at hp
+            rcases hp with rfl | rfl
+            · exact hm
+            · exact presentPre_mask W _)
+          have hin' : ∀ k e', es[k]? = some e' →
+              (regs ++ ext1 ++ [T2])[i + 1 + k]? = some (symInput (i + 1 + k) (gShape e')) := by
+            intro k e' hk
+            have := hin (k + 1) e' (by simpa using hk)
+            have e3 : i + (k + 1) = i + 1 + k := by omega
+            rw [e3] at this
+            exact getElem?_append_of_some (getElem?_append_of_some this ext1) [T2]
+          obtain ⟨hall, hxs, ext3, T3, preF, hrun3, hR3, hmF, hA, hE⟩ :=
+            alignFold_run hW hPW es (i + 1) s2 s3 (regs ++ ext1 ++ [T2]) xs' T2 _ _ hrun2 hR2 hm2 hin' hok.tail hr
+          refine ⟨?_, ?_, ext1 ++ [T2] ++ ext3, T3, preF, ?_, ?_, hmF, ?_, ?_⟩
+          · intro x hx
+            rcases List.mem_cons.mp hx with rfl | hx'
+            · exact ⟨hnd, hsub⟩
+            · exact hall x hx'
+          · simp only [List.zipIdx_cons, List.map_cons, he1, hxs]
+          · have e4 : regs ++ (ext1 ++ [T2] ++ ext3) = regs ++ ext1 ++ [T2] ++ ext3 := by simp [List.append_assoc]
+            rw [e4]; exact hrun3
+          · simpa only [List.zipIdx_cons, List.map_cons, List.foldl_cons, List.map_nil] using hR3
+          · intro a ha
+            apply hA
+            exact joinAll_ne_one (ps := [preA, presentPre (squeezedExpr [] e)]) (List.mem_cons_self ..) ha
+          · intro x hx a ha
+            rcases List.mem_cons.mp hx with rfl | hx'
+            · apply hA
+              exact joinAll_ne_one (ps := [preA, presentPre (squeezedExpr [] x)]) (by simp) ha
+            · exact hE x hx' a ha
